@@ -23,9 +23,9 @@ import (
 )
 
 type val struct {
-	hash  map[string][]byte
-	order []string // hash field insertion order
-	list  [][]byte
+	hash   map[string][]byte
+	order  []string // hash field insertion order
+	list   [][]byte
 	isList bool
 }
 
@@ -36,6 +36,7 @@ type Entry struct {
 	Args [][]byte
 }
 
+//go:norace
 func (e Entry) String() string {
 	var parts []string
 	for i, a := range e.Args {
@@ -67,6 +68,8 @@ type Server struct {
 }
 
 // NewServer creates an empty store.
+//
+//go:norace
 func NewServer(seed uint64) *Server {
 	return &Server{data: map[string]*val{}, rng: rand.New(rand.NewPCG(seed, 0x72656469)), ErrAt: map[int]bool{}, DropAt: map[int]bool{}, Fired: map[string]int{}}
 }
@@ -77,12 +80,15 @@ var (
 )
 
 // Install makes s the server that Dial connects to (nil: Dial fails).
+//
+//go:norace
 func Install(s *Server) {
 	gmu.Lock()
 	cur = s
 	gmu.Unlock()
 }
 
+//go:norace
 func current() *Server {
 	gmu.Lock()
 	defer gmu.Unlock()
@@ -90,6 +96,8 @@ func current() *Server {
 }
 
 // FromJournal materialises the store after the given journal prefix.
+//
+//go:norace
 func FromJournal(j []Entry, seed uint64) *Server {
 	s := NewServer(seed)
 	for _, e := range j {
@@ -101,6 +109,8 @@ func FromJournal(j []Entry, seed uint64) *Server {
 }
 
 // Snapshot returns a printable view of the store (sorted), for oracles and replay files.
+//
+//go:norace
 func (s *Server) Snapshot() map[string]any {
 	s.mu.Lock()
 	defer s.mu.Unlock()
@@ -124,6 +134,8 @@ func (s *Server) Snapshot() map[string]any {
 }
 
 // Keys returns the sorted keys.
+//
+//go:norace
 func (s *Server) Keys() []string {
 	s.mu.Lock()
 	defer s.mu.Unlock()
@@ -136,6 +148,8 @@ func (s *Server) Keys() []string {
 }
 
 // ListLen returns the length of a list key.
+//
+//go:norace
 func (s *Server) ListLen(key string) int {
 	s.mu.Lock()
 	defer s.mu.Unlock()
@@ -146,6 +160,8 @@ func (s *Server) ListLen(key string) int {
 }
 
 // JournalLen returns the number of mutating commands so far.
+//
+//go:norace
 func (s *Server) JournalLen() int {
 	s.mu.Lock()
 	defer s.mu.Unlock()
@@ -153,6 +169,8 @@ func (s *Server) JournalLen() int {
 }
 
 // Crash kills the current epoch: every existing connection fails from now on.
+//
+//go:norace
 func (s *Server) Crash() {
 	s.mu.Lock()
 	s.Epoch++
@@ -161,9 +179,16 @@ func (s *Server) Crash() {
 
 type reply struct{ b []byte }
 
-func (r *reply) status(x string)  { r.b = append(r.b, "+"+x+"\r\n"...) }
-func (r *reply) errorf(x string)  { r.b = append(r.b, "-ERR "+x+"\r\n"...) }
-func (r *reply) integer(n int)    { r.b = append(r.b, ":"+strconv.Itoa(n)+"\r\n"...) }
+//go:norace
+func (r *reply) status(x string) { r.b = append(r.b, "+"+x+"\r\n"...) }
+
+//go:norace
+func (r *reply) errorf(x string) { r.b = append(r.b, "-ERR "+x+"\r\n"...) }
+
+//go:norace
+func (r *reply) integer(n int) { r.b = append(r.b, ":"+strconv.Itoa(n)+"\r\n"...) }
+
+//go:norace
 func (r *reply) bulk(x []byte) {
 	if x == nil {
 		r.b = append(r.b, "$-1\r\n"...)
@@ -173,8 +198,11 @@ func (r *reply) bulk(x []byte) {
 	r.b = append(r.b, x...)
 	r.b = append(r.b, "\r\n"...)
 }
+
+//go:norace
 func (r *reply) array(n int) { r.b = append(r.b, "*"+strconv.Itoa(n)+"\r\n"...) }
 
+//go:norace
 func mutating(cmd string) bool {
 	switch cmd {
 	case "HSET", "HDEL", "DEL", "LREM", "LSET", "RPUSH":
@@ -184,6 +212,8 @@ func mutating(cmd string) bool {
 }
 
 // exec runs one command and returns its RESP reply.
+//
+//go:norace
 func (s *Server) exec(args [][]byte, replaying bool) []byte {
 	var r reply
 	if len(args) == 0 {
@@ -432,6 +462,7 @@ func (s *Server) exec(args [][]byte, replaying bool) []byte {
 	return r.b
 }
 
+//go:norace
 func matchGlob(pat, s string) bool {
 	if strings.HasSuffix(pat, "*") && !strings.ContainsAny(pat[:len(pat)-1], "*?[") {
 		return strings.HasPrefix(s, pat[:len(pat)-1])
@@ -451,10 +482,12 @@ type conn struct {
 
 var errBroken = &net.OpError{Op: "read", Net: "simredis", Err: errors.New("connection reset by peer")}
 
+//go:norace
 func (c *conn) dead() bool {
 	return c.closed || c.broken || c.epoch != c.s.Epoch
 }
 
+//go:norace
 func (c *conn) Write(p []byte) (int, error) {
 	simrt.Yield() // between any two command flushes other tasks may run (and the process may "die")
 	c.s.mu.Lock()
@@ -496,6 +529,7 @@ func (c *conn) Write(p []byte) (int, error) {
 	return len(p), nil
 }
 
+//go:norace
 func (c *conn) Read(p []byte) (int, error) {
 	c.s.mu.Lock()
 	defer c.s.mu.Unlock()
@@ -510,19 +544,35 @@ func (c *conn) Read(p []byte) (int, error) {
 	return n, nil
 }
 
-func (c *conn) Close() error                       { c.closed = true; return nil }
-func (c *conn) LocalAddr() net.Addr                { return addr("broker") }
-func (c *conn) RemoteAddr() net.Addr               { return addr("simredis") }
-func (c *conn) SetDeadline(t time.Time) error      { return nil }
-func (c *conn) SetReadDeadline(t time.Time) error  { return nil }
+//go:norace
+func (c *conn) Close() error { c.closed = true; return nil }
+
+//go:norace
+func (c *conn) LocalAddr() net.Addr { return addr("broker") }
+
+//go:norace
+func (c *conn) RemoteAddr() net.Addr { return addr("simredis") }
+
+//go:norace
+func (c *conn) SetDeadline(t time.Time) error { return nil }
+
+//go:norace
+func (c *conn) SetReadDeadline(t time.Time) error { return nil }
+
+//go:norace
 func (c *conn) SetWriteDeadline(t time.Time) error { return nil }
 
 type addr string
 
+//go:norace
 func (a addr) Network() string { return "sim" }
-func (a addr) String() string  { return string(a) }
+
+//go:norace
+func (a addr) String() string { return string(a) }
 
 // parseCommand parses one RESP array of bulk strings from the front of b.
+//
+//go:norace
 func parseCommand(b []byte) (args [][]byte, n int, ok bool) {
 	if len(b) == 0 || b[0] != '*' {
 		return nil, 0, false
@@ -559,6 +609,8 @@ func parseCommand(b []byte) (args [][]byte, n int, ok bool) {
 }
 
 // Dial replaces redigo.Dial (rule R6).
+//
+//go:norace
 func Dial(network, address string, options ...redigo.DialOption) (redigo.Conn, error) {
 	s := current()
 	if s == nil {
